@@ -1,6 +1,7 @@
 package main
 
 import (
+	"context"
 	"encoding/json"
 	"fmt"
 	"os"
@@ -181,6 +182,21 @@ func crashWorkload(args []string) int {
 			}
 			em.Next, _ = l.NextOffset()
 			mark("E", em)
+		case "trimcount", "trimoffset", "compactupdates":
+			// multi-segment helpers: every inner Delete gets its own B/E markers through a proxy, so
+			// the crash oracle sees a sequence of ordinary deletes
+			px := &markLog{Log: l, mark: mark, base: i * 100000, live: live}
+			ctx := context.Background()
+			var err error
+			switch st.Kind {
+			case "trimcount":
+				_, _, err = klevdb.TrimByCountMulti(ctx, px, st.N, noBackoff)
+			case "trimoffset":
+				_, _, err = klevdb.TrimByOffsetMulti(ctx, px, next-int64(st.N), noBackoff)
+			case "compactupdates":
+				_, _, err = klevdb.CompactUpdatesMulti(ctx, px, time.UnixMicro(baseTime+1_000_000_000), noBackoff)
+			}
+			_ = err
 		case "die":
 			// the process ends here without Sync or Close (its file descriptors are simply dropped)
 			mark("B", bm)
@@ -357,4 +373,36 @@ func pickDeleteTarget(r *Rand, dir string, live map[int64]bool, next int64, targ
 		return []int64{offs[r.Intn(len(offs))]}
 	}
 	return []int64{next}
+}
+
+// markLog wraps a Log so that every Delete issued by a multi-segment helper writes B/E markers.
+type markLog struct {
+	klevdb.Log
+	mark func(prefix string, x any)
+	base int
+	n    int
+	live map[int64]bool
+}
+
+func (m *markLog) Delete(offsets map[int64]struct{}) ([]klevdb.Message, int64, error) {
+	m.n++
+	id := m.base + m.n
+	var offs []int64
+	for o := range offsets {
+		offs = append(offs, o)
+	}
+	sort.Slice(offs, func(i, j int) bool { return offs[i] < offs[j] })
+	m.mark("B", WLBegin{I: id, Kind: "delete", Target: "helper", Offsets: offs})
+	del, sz, err := m.Log.Delete(offsets)
+	e := WLEnd{I: id}
+	if err != nil {
+		e.Err = err.Error()
+	}
+	for _, d := range del {
+		e.Deleted = append(e.Deleted, d.Offset)
+		delete(m.live, d.Offset)
+	}
+	e.Next, _ = m.Log.NextOffset()
+	m.mark("E", e)
+	return del, sz, err
 }
